@@ -62,7 +62,7 @@ class Program:
         self.features = ()
 
     def source(self):
-        out = []
+        out = ["use std::string::Stringable;\n"]
         for d in self.enums:
             out.append(d.src())
         for d in self.aggs:
